@@ -39,6 +39,8 @@ def units(tier):
             for vl in range(0 if not lk.startswith("sub") else 1, vmax + 1):
                 if vi > 0 and vl == 1:
                     continue
+                if tier == "quick" and lk == "sub_iaaf" and vl == 3:
+                    continue  # (four components: values up to 2 octets in the quick tier)
                 add(f"leaf_{lk}_v{vl}" + (f"_i{vi}" if vi else ""), [lk], vlen=vl, alen=1, vidx=vi)
         for al in range(2, amax + 1):
             add(f"leaf_{lk}_a{al}", [lk], vlen=1, alen=al)
@@ -71,7 +73,7 @@ def units(tier):
         (["and", [["eq"], ["present"], ["eq"], ["not", ["eq"]], ["not", ["eq"]]]], "v", "cn"),
     ]):
         add(f"concrete{i}", spec, vlen=1, alen=1, concrete=[vb, at])
-    add("history_of_failures", ["and", [["eq"], ["not", ["sub_iaf"]]]], vlen=1, alen=1, history=40000)
+    add("history_of_failures", ["and", [["eq"], ["not", ["sub_iaf"]]]], vlen=1, alen=1, history=12000 if tier == "quick" else 40000)
     if tier == "thorough":
         for a in LEAF_KINDS[::2]:
             for b in LEAF_KINDS[1::3]:
@@ -246,7 +248,7 @@ def body(ctx, shape):
         ctx.require(relang.member(ctx, text, shape_regex(shape["spec"])), "text-form-not-rfc4515")
     # the tree is the caller's and its member lists are mutable: after a change the text form has
     # to follow (a text computed earlier must not be handed out again)
-    if _grow(F, f):
+    if shape["vlen"] <= 2 and _grow(F, f):
         try:
             f5 = F.LDAPFilter.from_string(ctx.text(f))
         except Exception as e:  # noqa: BLE001
